@@ -186,3 +186,28 @@ Proof.
       * destruct (dedupe (filter (fun t => negb (zmem t all_old)) new_jt)) as [|nt [|? ?]]; try discriminate.
         eapply IH; [|exact H]. apply copy_keys_nodup. exact Hnd.
 Qed.
+
+(* ---------- property C06, second sentence, for the table rewrite ---------- *)
+(* every entry names a successor and every successor is named by an entry *)
+Definition table_ok_for (tbl : list (Z * name)) (jt : list name) : Prop :=
+  (forall z t, zassoc z tbl = Some t -> In t jt) /\ (forall t, In t jt -> exists z, zassoc z tbl = Some t).
+
+Theorem table_rewrite_keeps_ok tbl all_old new_jt res :
+  NoDup (map fst tbl) -> length new_jt = length all_old ->
+  (forall k s t, nth_error all_old k = Some s -> nth_error new_jt k = Some t -> t = s \/ ~ In t all_old) ->
+  NoDup all_old ->
+  table_rewrite tbl all_old new_jt all_old O [] = Some res ->
+  table_ok_for tbl all_old -> table_ok_for res new_jt.
+Proof.
+  intros Hkeys Hlen Hpos Hnd Htr [Hin Hall].
+  pose proof (table_rewrite_lookup tbl all_old new_jt Hkeys Hlen Hpos Hnd res Htr) as Hl.
+  split.
+  - intros z t Hz. specialize (Hl z). destruct (zassoc z tbl) as [t0|] eqn:Hzt; [|congruence].
+    destruct Hl as [A _]. pose proof (Hin z t0 Hzt) as Ht0. apply In_nth_error in Ht0 as [k Hk].
+    rewrite (A k Hk) in Hz. eapply nth_error_In; eauto.
+  - intros t Ht. apply In_nth_error in Ht as [k Hk].
+    destruct (nth_error all_old k) as [s|] eqn:Hs.
+    + destruct (Hall s (nth_error_In _ _ Hs)) as [z Hz]. exists z. specialize (Hl z). rewrite Hz in Hl.
+      destruct Hl as [A _]. rewrite (A k Hs). exact Hk.
+    + exfalso. apply nth_error_None in Hs. assert (k < length new_jt)%nat by (apply nth_error_Some; congruence). lia.
+Qed.
